@@ -11,7 +11,7 @@ Floats are IEEE bit patterns.
      idx   : decoded state index per epoch `i,i,…` (the decoder is a parameter of the model), or `x` = no decoding
    → `ok <STATES> # <inference>` : per observation (separated by `|`) the states `px,py,edge,d0,d1` separated by `;`
      (inference: one state per observation separated by `;`, `_` when idx = x)
-   | `err zerodiv` | `err unbound` | `err index`
+   | `err zerodiv` | `err index`
   curv <geometry>  → the abs_curv column of a geometry (computeAbsCurv)
   net <edges> <late> <res> <margin> <call> <call> …      (`Model/MapMatchNet`: construction path, index of C08, front end)
      edges : `|`-separated `id:s:t:orientation:sx,sy:tx,ty:geometry` — the `Edge` (geometry `x,y;x,y;…`, its abs_curv column is
@@ -35,7 +35,8 @@ def eps : Float := Float.ofBits 4367597403136100796   -- 1e-16
 
 def showErr : MapMatch.Err → String
   | .proj .zerodiv => "err zerodiv"
-  | .proj .unbound => "err unbound"
+  | .proj .index => "err index"
+  | .proj .overflow => "err overflow"
   | .index => "err index"
 
 def pt? (s : String) : Option (Float × Float) :=
@@ -60,7 +61,8 @@ def flFloat (x : Float) : Int :=
 
 def showErrN : MapMatch.ErrN → String
   | .mm (.proj .zerodiv) => "Ezerodiv"
-  | .mm (.proj .unbound) => "Eunbound"
+  | .mm (.proj .index) => "Eindex"
+  | .mm (.proj .overflow) => "Eoverflow"
   | .mm .index => "Eindex"
   | .grid .zerodiv => "Ezerodiv"
   | .grid .index => "Eindex"
@@ -82,6 +84,14 @@ structure TrackReq where
   t : TrackS Float
   chosen : Option (List Int)
 
+/-- the time stamps of a track request: one natural key per observation (the harness' injective encoding of the `ObsTime`
+fields), in the order of the track — ANY order, ties included —, or `_` for an empty track -/
+def stampList? (s : String) (n : Nat) : Option (List Nat) :=
+  if s == "_" then (if n == 0 then some [] else none) else
+  match natList? s with
+  | some l => if l.length == n then some l else none
+  | none => none
+
 def trackReq? (s : String) : Option TrackReq :=
   match s.splitOn "~" with
   | [ns, nz, pts, ch] => do
@@ -89,6 +99,12 @@ def trackReq? (s : String) : Option TrackReq :=
     let pts ← geom? pts
     let chosen ← if ch == "x" then some none else (intList? ch).map some
     pure ⟨⟨pts.map (fun p => ⟨p, 0⟩), splitTok ns ',', noise⟩, chosen⟩
+  | [ns, nz, pts, ch, tm] => do
+    let noise ← floatList? nz
+    let pts ← geom? pts
+    let tm ← stampList? tm pts.length
+    let chosen ← if ch == "x" then some none else (intList? ch).map some
+    pure ⟨⟨(pts.zip tm).map (fun (p, t) => ⟨p, t⟩), splitTok ns ',', noise⟩, chosen⟩
   | _ => none
 
 structure CallReq where
@@ -118,6 +134,7 @@ def showStates (st : List (List (State Float))) : String :=
 def showResultN (r : ResultN Float) : String :=
   showStates r.states ++ "#" ++ joinWith ";" (r.inference.map showState) ++ "#" ++ joinWith "," r.track.names ++ "#"
     ++ showList showFloat r.track.noise ++ "#" ++ joinWith ";" (r.track.obs.map (fun o => s!"{showFloat o.pos.1},{showFloat o.pos.2}"))
+    ++ "#" ++ showList (fun (n : Nat) => toString n) (r.track.obs.map (fun o => o.t))
 
 /-- one call of the front end; every track is decoded with its own chosen edge numbers (a track without decoding only
 has its `STATES` computed, as the real call did before it raised) -/
@@ -188,6 +205,12 @@ def trackReq3? (s : String) : Option TrackReq3 :=
     let pts ← geom3? pts
     let chosen ← if ch == "x" then some none else (intList? ch).map some
     pure ⟨⟨pts.map (fun p => ⟨p, 0⟩), splitTok ns ',', noise⟩, chosen⟩
+  | [ns, nz, pts, ch, tm] => do
+    let noise ← floatList? nz
+    let pts ← geom3? pts
+    let tm ← stampList? tm pts.length
+    let chosen ← if ch == "x" then some none else (intList? ch).map some
+    pure ⟨⟨(pts.zip tm).map (fun (p, t) => ⟨p, t⟩), splitTok ns ',', noise⟩, chosen⟩
   | _ => none
 
 structure CallReq3 where
@@ -211,6 +234,7 @@ def chosenDecoder3 (chosen : List Int) : Decoder3 Float := fun _ _ states =>
 def showResultN3 (r : ResultN3 Float) : String :=
   showStates3 r.states ++ "#" ++ joinWith ";" (r.inference.map showState3) ++ "#" ++ joinWith "," r.track.names ++ "#"
     ++ showList showFloat r.track.noise ++ "#" ++ joinWith ";" (r.track.obs.map (fun o => showP3 o.pos))
+    ++ "#" ++ showList (fun (n : Nat) => toString n) (r.track.obs.map (fun o => o.t))
 
 def runCall3 (net : Net3 Float) (c : CallReq3) : String :=
   let a : Args Float := ⟨c.noise, 10, c.radius, false, false⟩
